@@ -162,4 +162,145 @@ theorem fold_ac_keys (ts : List (Term Rat)) (d : Decomp Rat) (w : Rat) (h : ∀ 
       · exact h2
       · exact absurd (by rw [h2]; rfl) (h (Term.ac w' a b) (by simp))
 
+/-! ### the executed functions `srcKinds`, `sourceGroups`, `analysisGroups`, `partLap` -/
+
+theorem acInsert_keys_nodup (w a b : Rat) (l : List (Rat × Rat × Rat)) (h : (acKeys l).Nodup) :
+    (acKeys (acInsert w a b l)).Nodup := by
+  induction l with
+  | nil => simp [acInsert, acKeys]
+  | cons p t ih =>
+    obtain ⟨w', a', b'⟩ := p
+    simp only [acKeys, List.map_cons, List.nodup_cons] at h
+    by_cases hw : w' = w
+    · simp only [acInsert, hw, if_true, acKeys, List.map_cons, List.nodup_cons]
+      rw [← hw]; exact h
+    · simp only [acInsert, hw, if_false, acKeys, List.map_cons, List.nodup_cons]
+      refine ⟨fun hmem => ?_, ih h.2⟩
+      rcases acInsert_keys w a b t w' hmem with h1 | h1
+      · exact h.1 h1
+      · exact hw h1
+
+theorem fold_ac_nodup (ts : List (Term Rat)) (d : Decomp Rat) (h : (acKeys d.ac).Nodup) :
+    (acKeys (ts.foldl step d).ac).Nodup := by
+  induction ts generalizing d with
+  | nil => exact h
+  | cons t rest ih =>
+    simp only [List.foldl_cons]
+    apply ih
+    cases t with
+    | dc c => exact h
+    | tr i c => exact h
+    | ac w a b => exact acInsert_keys_nodup w a b d.ac h
+
+theorem decompose_ac_nodup (ts : List (Term Rat)) : (acKeys (decompose ts).ac).Nodup :=
+  fold_ac_nodup ts ⟨0, [], []⟩ (by simp [acKeys])
+
+theorem find_of_nodup (l : List (Rat × Rat × Rat)) (h : (acKeys l).Nodup) (p : Rat × Rat × Rat) (hp : p ∈ l) :
+    l.find? (fun q => decide (q.1 = p.1)) = some p := by
+  induction l with
+  | nil => simp at hp
+  | cons q t ih =>
+    simp only [acKeys, List.map_cons, List.nodup_cons] at h
+    rcases List.mem_cons.mp hp with rfl | hpt
+    · simp [List.find?_cons]
+    · have hne : q.1 ≠ p.1 := fun he => h.1 (he ▸ List.mem_map.mpr ⟨p, hpt, rfl⟩)
+      simp only [List.find?_cons, hne, decide_false]
+      exact ih h.2 hpt
+
+theorem acPart_of_mem (d : Decomp Rat) (h : (acKeys d.ac).Nodup) (p : Rat × Rat × Rat) (hp : p ∈ d.ac) :
+    acPart d p.1 = p.2 := by
+  simp only [acPart, find_of_nodup d.ac h p hp]
+
+theorem sumK_eq_sum (l : List Rat) : sumK l = l.sum := by
+  induction l with
+  | nil => rfl
+  | cons a t ih => simp [sumK, ih]
+
+theorem sum_filter_of_zero {α : Type} (q : α → Bool) (g : α → Rat) (l : List α) (h : ∀ a ∈ l, q a = false → g a = 0) :
+    ((l.filter q).map g).sum = (l.map g).sum := by
+  induction l with
+  | nil => rfl
+  | cons a t ih =>
+    have iht := ih (fun b hb => h b (by simp [hb]))
+    by_cases hq : q a = true
+    · simp [List.filter_cons, hq, iht]
+    · have hq' : q a = false := by simpa using hq
+      simp [List.filter_cons, hq', iht, h a (by simp) hq']
+
+/-- the ω-groups take exactly the accumulated phasors: Σ over the reported ω keys of the transform of the part
+    taken = Σ over ALL accumulated entries (the dropped ones are zero phasors) -/
+theorem ac_parts_sum (s0 : Rat) (d : Decomp Rat) (h : (acKeys d.ac).Nodup) :
+    (((d.ac.filter (fun p => p.2.1 != 0 || p.2.2 != 0)).map (fun p => Key.ac p.1)).map
+        (fun k => match k with | Key.ac w => phasorLap (acPart d w).1 (-(acPart d w).2) w s0 | _ => 0)).sum =
+      sumK (d.ac.map (fun p => phasorLap p.2.1 (-p.2.2) p.1 s0)) := by
+  rw [sumK_eq_sum, List.map_map]
+  have hcongr : ∀ l : List (Rat × Rat × Rat), (∀ p ∈ l, p ∈ d.ac) →
+      (l.map ((fun k => match k with | Key.ac w => phasorLap (acPart d w).1 (-(acPart d w).2) w s0 | _ => 0) ∘
+        (fun p => Key.ac p.1))) = l.map (fun p => phasorLap p.2.1 (-p.2.2) p.1 s0) := by
+    intro l hl
+    apply List.map_congr_left
+    intro p hp
+    simp only [Function.comp, acPart_of_mem d h p (hl p hp)]
+  rw [hcongr _ (fun p hp => (List.mem_filter.mp hp).1)]
+  apply sum_filter_of_zero
+  intro p _ hq
+  simp only [Bool.or_eq_false_iff, bne_eq_false_iff_eq] at hq
+  simp [phasorLap, hq.1, hq.2]
+
+theorem insertG_listed (g : List (Key × List String)) (k : Key) (n : String) (k' : Key) (n' : String) :
+    listed (insertG g k n) k' n' ↔ listed g k' n' ∨ (k' = k ∧ n' = n) := by
+  induction g with
+  | nil => simp [insertG, listed]
+  | cons p t ih =>
+    obtain ⟨k0, l0⟩ := p
+    by_cases hk : k0 = k
+    · subst hk
+      simp only [insertG, if_true, listed, List.mem_cons, Prod.mk.injEq]
+      constructor
+      · rintro ⟨l, (⟨rfl, rfl⟩ | hl), hn⟩
+        · rcases List.mem_append.mp hn with h1 | h1
+          · exact Or.inl ⟨l0, Or.inl ⟨rfl, rfl⟩, h1⟩
+          · simp only [List.mem_singleton] at h1; exact Or.inr ⟨rfl, h1⟩
+        · exact Or.inl ⟨l, Or.inr hl, hn⟩
+      · rintro (⟨l, (⟨rfl, rfl⟩ | hl), hn⟩ | ⟨rfl, rfl⟩)
+        · exact ⟨l ++ [n], Or.inl ⟨rfl, rfl⟩, List.mem_append.mpr (Or.inl hn)⟩
+        · exact ⟨l, Or.inr hl, hn⟩
+        · exact ⟨l0 ++ [n'], Or.inl ⟨rfl, rfl⟩, by simp⟩
+    · simp only [insertG, hk, if_false]
+      have hcons : ∀ (g' : List (Key × List String)), listed ((k0, l0) :: g') k' n' ↔ ((k' = k0 ∧ n' ∈ l0) ∨ listed g' k' n') := by
+        intro g'
+        simp only [listed, List.mem_cons, Prod.mk.injEq]
+        constructor
+        · rintro ⟨l, (⟨rfl, rfl⟩ | hl), hn⟩
+          · exact Or.inl ⟨rfl, hn⟩
+          · exact Or.inr ⟨l, hl, hn⟩
+        · rintro (⟨rfl, hn⟩ | ⟨l, hl, hn⟩)
+          · exact ⟨l0, Or.inl ⟨rfl, rfl⟩, hn⟩
+          · exact ⟨l, Or.inr hl, hn⟩
+      rw [hcons, hcons, ih]; tauto
+
+theorem foldKinds_listed (ks : List Key) (nm : String) (g : List (Key × List String)) (k' : Key) (n' : String) :
+    listed (ks.foldl (fun g k => insertG g k nm) g) k' n' ↔ listed g k' n' ∨ (k' ∈ ks ∧ n' = nm) := by
+  induction ks generalizing g with
+  | nil => simp
+  | cons k t ih =>
+    simp only [List.foldl_cons, ih, insertG_listed, List.mem_cons]; tauto
+
+theorem foldSrcs_listed (srcs : List Src) (g : List (Key × List String)) (k' : Key) (n' : String) :
+    listed (srcs.foldl (fun g s => (srcKinds s).foldl (fun g k => insertG g k s.name) g) g) k' n' ↔
+      listed g k' n' ∨ ∃ s ∈ srcs, k' ∈ srcKinds s ∧ n' = s.name := by
+  induction srcs generalizing g with
+  | nil => simp
+  | cons s t ih =>
+    simp only [List.foldl_cons, ih, foldKinds_listed, List.mem_cons]
+    constructor
+    · rintro ((h | h) | ⟨s', hs', h⟩)
+      · exact Or.inl h
+      · exact Or.inr ⟨s, Or.inl rfl, h⟩
+      · exact Or.inr ⟨s', Or.inr hs', h⟩
+    · rintro (h | ⟨s', (rfl | hs'), h⟩)
+      · exact Or.inl (Or.inl h)
+      · exact Or.inl (Or.inr h)
+      · exact Or.inr ⟨s', hs', h⟩
+
 end Lcapy.Groups
